@@ -193,6 +193,11 @@ def _parse_unit(text, base_dir=None):
                 elif k == "strip_logs":
                     ex.strip_logs = True
                     cur = None
+                elif k == "expand_macro":
+                    # expand_macro NAME: every `NAME!(arg)` of the item is replaced by the body of the single-arm
+                    # `macro_rules! NAME { ($x:expr) => { BODY }; }` found in the item's own source file, with $x := arg
+                    ex.expand_macros = getattr(ex, "expand_macros", []) + [rest.strip()]
+                    cur = None
                 elif k == "expand_ser_macros":
                     # mechanical expansion of ser_multiread!/ser_multiwrite! (core/src/macros.rs), whatever their arguments
                     ex.expand_ser_macros = True
@@ -320,6 +325,51 @@ def _split_top(s):
     if "".join(cur).strip():
         parts.append("".join(cur).strip())
     return parts
+
+
+def _expand_local_macro(text, name, src_text):
+    """single-arm macro_rules with one `$v:expr` metavariable, defined in the same file"""
+    m = re.search(r"macro_rules!\s*%s\s*\{" % re.escape(name), src_text)
+    if not m:
+        raise LostAnchor("macro_rules! %s not found in the source file" % name)
+    msk = mask(src_text)
+    i = m.end() - 1
+    j = match_brace(msk, i)
+    arm = src_text[i + 1:j]
+    am = re.match(r"\s*\(\s*\$(\w+)\s*:\s*expr\s*\)\s*=>\s*\{", arm)
+    if not am:
+        raise LostAnchor("macro_rules! %s is not a single-arm ($x:expr) macro" % name)
+    var = am.group(1)
+    amsk = mask(arm)
+    bo = am.end() - 1
+    bc = match_brace(amsk, bo)
+    body = arm[bo + 1:bc].strip()
+    out, k, n, cnt = [], 0, len(text), 0
+    tm = mask(text)
+    call = name + "!"
+    while k < n:
+        if tm.startswith(call, k) and (k == 0 or not (tm[k - 1].isalnum() or tm[k - 1] == "_")):
+            q = k + len(call)
+            while q < n and tm[q] in " \t\n":
+                q += 1
+            if q < n and tm[q] == "(":
+                depth, e = 0, q
+                while e < n:
+                    if tm[e] == "(":
+                        depth += 1
+                    elif tm[e] == ")":
+                        depth -= 1
+                        if depth == 0:
+                            break
+                    e += 1
+                arg = text[q + 1:e]
+                out.append("(" + body.replace("$" + var, "(" + arg + ")") + ")")
+                cnt += 1
+                k = e + 1
+                continue
+        out.append(text[k])
+        k += 1
+    return "".join(out), cnt
 
 
 def _expand_ser_macros(text):
@@ -580,6 +630,11 @@ def transform(ex, src):
         if t2 != text:
             record["transformations"].append("T3 log macros removed: %d" % t2.count("/* T3:"))
         text = t2
+    for mname in getattr(ex, "expand_macros", []):
+        text, nm = _expand_local_macro(text, mname, src.src)
+        if ex.strip_logs:
+            text = _strip_log_macros(text)
+        record["transformations"].append("T6 %s!(..) expanded per its macro_rules definition in the same file: %d" % (mname, nm))
     if getattr(ex, "expand_ser_macros", False):
         text, nm = _expand_ser_macros(text)
         if nm:
